@@ -185,7 +185,7 @@ def enrich(sc, ce):
             fin = rd("final")
             # the snapshot is taken after validate_data; use the file itself
             fin = open(sc.tpath, "rb").read()
-            out.append({"op": "finish", "valRet": e["ret"], "eqB": fin == B, "sized": sized, "must": bool(getattr(sc, "must", False))})
+            out.append({"op": "finish", "valRet": e["ret"], "eqB": fin == B, "sized": sized, "must": bool(getattr(sc, "must", False)), "bValid": bool(getattr(sc, "bvalid", True))})
         elif op == "Killed":
             out.append({"op": "killed"})
         elif op in ("Crash", "Hang"):
